@@ -281,7 +281,7 @@ def run_history(ctx: Ctx, tracer: Tracer, hist_id: int, version: float, ops, pat
                 Drillhole.create(ws, parent=g, name=name, collar=[0.0, 0.0, 0.0],
                                  surveys=np.c_[[0.0, 10.0], [0.0, 0.0], [-90.0, -90.0]])
                 ref[name] = {}
-                depth_len[name] = [1, 2, 3, 7][(hole_counter + hist_id) % 4]
+                depth_len[name] = [0, 1, 2, 3, 7][(hole_counter + hist_id) % 5]      # zero-length tables are legal
                 ctx.count("op:add_hole")
             elif kind == "reopen":
                 ws.close()
@@ -305,7 +305,7 @@ def run_history(ctx: Ctx, tracer: Tracer, hist_id: int, version: float, ops, pat
                     n = depth_len[hname]
                     k = n if op[3] % 3 else max(0, n - 1)   # sometimes shorter: padded with nan
                     vals = rng_vals.integers(-800, 800, size=k) / 8.0
-                    if k == 0:
+                    if k == 0 and n > 0:
                         return
                     h.add_data({dname: {"depth": np.arange(1.0, n + 1.0), "values": vals}})
                     ref[hname][dname] = toks(np.r_[vals, [np.nan] * (n - k)])
